@@ -160,7 +160,7 @@ impl Interval {
 }
 impl UdpSocket {
     #[verifier::external_body]
-    fn bind(addr: String) -> (r: Result<UdpSocket, IoError>) { unimplemented!() }
+    fn bind<A>(addr: A) -> (r: Result<UdpSocket, IoError>) { unimplemented!() }
 }
 impl core::convert::From<IoError> for anyhow::Error {
     #[verifier::external_body]
